@@ -1,4 +1,6 @@
 import DSV.Mercury.LemmasSel
+import DSV.Mercury.LemmasBlock
+import DSV.Mercury.LemmasReport
 /-!
 # C08 — Mercury consensus values are byzantine-robust
 
@@ -389,5 +391,106 @@ theorem market_status_perm (σ σ' : Sched (Nat × Nat)) (hσ : IsSched σ) (hσ
     (fun c => by simp only [List.mem_cons]; rw [hp.mem_iff])
     (ms_fold_best _ _) (ms_fold_best _ _)
   rw [this]
+
+theorem latest_block_perm (σ σ' : V1.SchedsLB) (hσ : σ.IsSched) (hσ' : σ'.IsSched) (f : Nat)
+    (paos paos' : List V1.PAO) (h : paos.Perm paos') :
+    V1.consensusLatestBlock σ paos f = V1.consensusLatestBlock σ' paos' f :=
+  consensusLatestBlock_perm hσ hσ' f h
+
+/-! ## the fields handed to the codec are the consensus values of the parsed observations
+
+so every statement above about an exported function is a statement about an emitted report -/
+
+theorem v1_fields_from_consensus (cfg : Cfg) (codec : Codec V1.RF) (σ : V1.Scheds) (prev : Option Bytes)
+    (aos : List (Option V1.Obs)) (rf : V1.RF) (b : Bytes)
+    (h : V1.report cfg codec σ prev aos = .ok (some (rf, b))) :
+    consensusTimestamp ((V1.parseAll aos).map (·.ts)) = .ok rf.ts ∧
+    (∃ v, consensusBenchmarkPrice ((V1.parseAll aos).map fun p => (p.bp, p.pricesValid)) cfg.f = .ok v ∧ rf.bp = some v) ∧
+    (∃ v, consensusBid ((V1.parseAll aos).map fun p => (p.bid, p.pricesValid)) cfg.f = .ok v ∧ rf.bid = some v) ∧
+    (∃ v, consensusAsk ((V1.parseAll aos).map fun p => (p.ask, p.pricesValid)) cfg.f = .ok v ∧ rf.ask = some v) ∧
+    V1.consensusLatestBlock σ.lb (V1.parseAll aos) cfg.f = .ok (rf.curHash, rf.curNum, rf.curTs) := by
+  obtain ⟨_, hb, _⟩ := reportCore_some h
+  obtain ⟨_, h2, h3, h4, h5, h6⟩ := V1.build_ok hb
+  exact ⟨h2, h3, h4, h5, h6⟩
+
+theorem v2_fields_from_consensus (cfg : Cfg) (codec : Codec V2.RF) (σ : Sched (Int × Nat)) (prev : Option Bytes)
+    (aos : List (Option V2.Obs)) (rf : V2.RF) (b : Bytes)
+    (h : V2.report cfg codec σ prev aos = .ok (some (rf, b))) :
+    consensusTimestamp ((V2.parseAll aos).map (·.ts)) = .ok rf.ts ∧
+    (∃ v, consensusBenchmarkPrice ((V2.parseAll aos).map fun p => (p.bp, p.pricesValid)) cfg.f = .ok v ∧ rf.bp = some v) ∧
+    feeOrZero (consensusLinkFee ((V2.parseAll aos).map fun p => (p.linkFee, p.linkFeeValid)) cfg.f) = .ok rf.linkFee ∧
+    feeOrZero (consensusNativeFee ((V2.parseAll aos).map fun p => (p.nativeFee, p.nativeFeeValid)) cfg.f) = .ok rf.nativeFee := by
+  obtain ⟨_, hb, _⟩ := reportCore_some h
+  obtain ⟨h1, _, h3, h4, h5, _⟩ := V2.build_ok hb
+  exact ⟨h1, h3, h4, h5⟩
+
+theorem v3_fields_from_consensus (cfg : Cfg) (codec : Codec V3.RF) (σ : Sched (Int × Nat)) (prev : Option Bytes)
+    (aos : List (Option V3.Obs)) (rf : V3.RF) (b : Bytes)
+    (h : V3.report cfg codec σ prev aos = .ok (some (rf, b))) :
+    consensusTimestamp ((V3.parseAll aos).map (·.ts)) = .ok rf.ts ∧
+    (∃ v, consensusBenchmarkPrice ((V3.parseAll aos).map fun p => (p.bp, p.pricesValid)) cfg.f = .ok v ∧ rf.bp = some v) ∧
+    (∃ v, consensusBid ((V3.parseAll aos).map fun p => (p.bid, p.pricesValid)) cfg.f = .ok v ∧ rf.bid = some v) ∧
+    (∃ v, consensusAsk ((V3.parseAll aos).map fun p => (p.ask, p.pricesValid)) cfg.f = .ok v ∧ rf.ask = some v) ∧
+    feeOrZero (consensusLinkFee ((V3.parseAll aos).map fun p => (p.linkFee, p.linkFeeValid)) cfg.f) = .ok rf.linkFee ∧
+    feeOrZero (consensusNativeFee ((V3.parseAll aos).map fun p => (p.nativeFee, p.nativeFeeValid)) cfg.f) = .ok rf.nativeFee := by
+  obtain ⟨_, hb, _⟩ := reportCore_some h
+  obtain ⟨h1, _, h3, h4, h5, h6, h7, _⟩ := V3.build_ok hb
+  exact ⟨h1, h3, h4, h5, h6, h7⟩
+
+theorem v4_fields_from_consensus (cfg : Cfg) (codec : Codec V4.RF) (σ : V4.Scheds) (prev : Option Bytes)
+    (aos : List (Option V4.Obs)) (rf : V4.RF) (b : Bytes)
+    (h : V4.report cfg codec σ prev aos = .ok (some (rf, b))) :
+    consensusTimestamp ((V4.parseAll aos).map (·.ts)) = .ok rf.ts ∧
+    (∃ v, consensusBenchmarkPrice ((V4.parseAll aos).map fun p => (p.bp, p.pricesValid)) cfg.f = .ok v ∧ rf.bp = some v) ∧
+    feeOrZero (consensusLinkFee ((V4.parseAll aos).map fun p => (p.linkFee, p.linkFeeValid)) cfg.f) = .ok rf.linkFee ∧
+    feeOrZero (consensusNativeFee ((V4.parseAll aos).map fun p => (p.nativeFee, p.nativeFeeValid)) cfg.f) = .ok rf.nativeFee ∧
+    V4.consensusMarketStatus σ.ms ((V4.parseAll aos).map fun p => (p.marketStatus, p.marketStatusValid)) cfg.f = .ok rf.marketStatus := by
+  obtain ⟨_, hb, _⟩ := reportCore_some h
+  obtain ⟨h1, _, h3, h4, h5, h6, _⟩ := V4.build_ok hb
+  exact ⟨h1, h3, h4, h5, h6⟩
+
+/-- composed, at the level of `Report` (v2; the other versions compose the same way): the
+    benchmark price in an emitted report lies between two valid prices of correct observers
+    whenever those outnumber the valid prices of the others -/
+theorem v2_report_benchmark_in_honest_range (cfg : Cfg) (codec : Codec V2.RF) (σ : Sched (Int × Nat))
+    (prev : Option Bytes) (aos hs bs : List (Option V2.Obs)) (rf : V2.RF) (b : Bytes)
+    (hperm : aos.Perm (hs ++ bs))
+    (hmaj : (validVals ((V2.parseAll bs).map fun p => (p.bp, p.pricesValid))).length <
+            (validVals ((V2.parseAll hs).map fun p => (p.bp, p.pricesValid))).length)
+    (h : V2.report cfg codec σ prev aos = .ok (some (rf, b))) :
+    ∃ bp, rf.bp = some bp ∧
+      ∃ lo ∈ validVals ((V2.parseAll hs).map fun p => (p.bp, p.pricesValid)),
+      ∃ hi ∈ validVals ((V2.parseAll hs).map fun p => (p.bp, p.pricesValid)), lo ≤ bp ∧ bp ≤ hi := by
+  obtain ⟨_, ⟨v, hv, hbp⟩, _⟩ := v2_fields_from_consensus cfg codec σ prev aos rf b h
+  refine ⟨v, hbp, ?_⟩
+  have hp : ((V2.parseAll aos).map fun p => (p.bp, p.pricesValid)).Perm
+      (((V2.parseAll hs).map fun p => (p.bp, p.pricesValid)) ++ ((V2.parseAll bs).map fun p => (p.bp, p.pricesValid))) := by
+    rw [← List.map_append]
+    apply List.Perm.map
+    unfold V2.parseAll; rw [← List.filterMap_append]; exact List.Perm.filterMap _ hperm
+  exact benchmark_in_honest_range cfg.f _ _ _ v hp hmaj hv
+
+/-! ## non-vacuity and sharpness of the thresholds -/
+
+/-- hypotheses of the range theorems are satisfiable: 3 honest, 1 faulty, f = 1 -/
+example : ∃ v, consensusPrice [(10, true), (100000, true), (11, true), (12, true)] 1 = .ok v ∧
+    ∃ lo ∈ validVals [((10 : Int), true), (11, true), (12, true)],
+    ∃ hi ∈ validVals [((10 : Int), true), (11, true), (12, true)], lo ≤ v ∧ v ≤ hi :=
+  price_robust 1 _ [(10, true), (11, true), (12, true)] [(100000, true)]
+    (by
+      refine List.Perm.cons _ ?_
+      exact (List.perm_append_comm (l₁ := [((100000 : Int), true)]) (l₂ := [(11, true), (12, true)])))
+    (by decide) (by decide)
+
+/-- `f` agreeing observers are not enough, `f+1` are (max finalized timestamp, f = 1) -/
+example : consensusMaxFinalizedTimestamp id [(7, true), (8, true), (9, true)] 1 = .err "no-agreement" := by decide
+example : consensusMaxFinalizedTimestamp id [(7, true), (8, true), (7, true)] 1 = .ok 7 := by decide
+/-- market status: ties prefer the smaller value; exactly `f` votes are refused -/
+example : V4.consensusMarketStatus id [(2, true), (1, true), (2, true), (1, true)] 1 = .ok 1 := by decide
+example : V4.consensusMarketStatus id [(2, true), (1, true), (3, false)] 1 = .err "too-few" := by decide
+/-- too few valid values -/
+example : consensusPrice [(5, true), (7, false), (6, false)] 1 = .err "too-few" := by decide
+/-- negative fees do not count -/
+example : consensusFee [(5, true), (-7, true)] 1 = .err "too-few" := by decide
 
 end DSV.Props.C08
